@@ -63,4 +63,10 @@ def run(ctx):
         for o in rep.obligations[before:]:
             o["rule"] = "C12.tables"
             o["key"] = o["key"].replace("C02.tables", "C12.tables")
+        # validators apply the constraint extensions only to version 3 certificates (webpki rejects anything else;
+        # OpenSSL treats a self-signed v1 certificate as a CA)
+        import c05
+        arts_ = [common.artefact(crate, f) for f in (CERT_FN, c05.CSR_FN, c05.CRL_FN)]
+        if all(a.tbs is not None for a in arts_):
+            common.borrow_rules(rep, lambda: c05.check_versions(cfg, arts_, rep), "C05.", "C12.version")
         rep.sample({"rule": "C12", "cfg": cfg, "sites": sorted(want_keys.values())})
